@@ -97,7 +97,46 @@ def judge(chk, c, impl, mod):
         chk.fail_disagree(f"{c['env']} {c['opts']}: impl {ci} model {cm}", {"case": c, "impl": impl, "model": mod})
 
 
+# ---- project level: options set on a parent context apply to its descendants unless they define their own
+
+def project_oracle(chk, p, r, m):
+    from . import projrun, projcheck
+    from .c03 import contexts_of, chain_of
+    if projrun.impl_status(r) != "ok":
+        return
+    ctxs = contexts_of(p)
+    for b in projcheck.built(r):
+        chain = chain_of(ctxs, b["builder"])
+        eff = None
+        depth = None
+        for i, cn in enumerate(chain):
+            if ctxs.get(cn, {}).get("var_options") is not None:
+                eff, depth = ctxs[cn]["var_options"], i
+                break
+        if eff is None:
+            continue
+        chk.count(f"var_options-from-depth:{min(depth, 3)}")
+        G = dict((k, v) for k, v in b["global_env"])
+        flat = dict((k, v) for k, v in b["global_flat"])
+        for var, o in eff.items():
+            if "from" in o:
+                continue
+            if var in G:
+                want = spec_value(G[var], o)
+                if flat.get(var) != want:
+                    sig = "inherit:var-options-not-applied" if depth > 0 else "flatten_opts:project"
+                    chk.fail_oracle(sig, f"{b['builder']}/{b['app']}: {var} = {G[var]!r} with options {o} of context {chain[depth]} (depth {depth}) is rendered {flat.get(var)!r}, statement says {want!r}",
+                                    {"project": p, "build": [b["builder"], b["app"]]})
+                    return
+                if depth > 0 and isinstance(G[var], list):
+                    chk.nontrivial.add("inherit:" + __import__("hashlib").sha256(json.dumps(p, sort_keys=True).encode()).hexdigest()[:12])
+
+
 def run(chk):
+    from . import projgen, projcheck
+    prof = projgen.profile(n_ctx=(2, 4), p_varopts=0.45, p_env=0.6, p_tasks=0.05, p_custom_build=0.02, p_download=0.02, p_cycle=0.0)
+    projcheck.campaign(chk, prof, 200 if chk.tier == "quick" else 5000, ("status", "decision", "global_env", "module_env", "ninja"),
+                       project_oracle, lambda c, p, r, m: False)
     n = 30000 if chk.tier == "quick" else 600000
     chk.rule = ("random envs (1-3 variables, single values and lists of 0-5 elements with empty elements at any position) x "
                 "var_options (joiner/prefix/suffix/start/end/from, each present or absent); non-trivial = an optioned list is empty "
@@ -112,6 +151,9 @@ def run(chk):
 
 def replay(chk, path):
     r = json.load(open(path))
+    if "project" in r["case"]:
+        from . import projcheck
+        return projcheck.replay_project(chk, path, ("status", "decision", "global_env", "module_env", "ninja"), project_oracle)
     c = r["case"]["case"]
     impl, mod = common.oracle([c])[0], common.model([c])[0]
     print("impl :", canon(impl)); print("model:", canon(mod)); print("spec :", spec(c))
